@@ -2,7 +2,9 @@ use std::path::{Path, PathBuf};
 
 use crate::checker::CheckResult;
 use crate::cli::{CheckArgs, Cli};
-use crate::commands::context::{CheckContext, FileProcessError, resolve_scan_paths};
+use crate::commands::context::{
+    CheckContext, FileProcessError, canonical_target, resolve_scan_paths,
+};
 use crate::scanner::ScanResult;
 
 use super::check_git_diff::filter_by_git_diff;
@@ -45,7 +47,9 @@ pub fn scan_or_filter_files(
         let mut existing_files = Vec::with_capacity(args.files.len());
         for file in &args.files {
             if file.exists() {
-                existing_files.push(file.clone());
+                // One spelling per file, as for scan targets: root-anchored patterns and
+                // baseline keys must not depend on `./x`, `x` or `<cwd>/x`.
+                existing_files.push(canonical_target(file));
             } else if !cli.quiet {
                 crate::output::print_warning(&format!("file not found: {}", file.display()));
             }
